@@ -100,7 +100,7 @@ inductive Expr
   | num (k : NumKind) (text : String)
   | var (x : String) (pos : Pos)         -- VariableLabel, NAME
   | reg (text : String)                  -- VariableLabel, REGREF (text includes the `q`)
-  | idx (x : String) (i : Expr)          -- ArrayIdxLabel
+  | idx (x : String) (pos : Pos) (i : Expr)   -- ArrayIdxLabel
   | par (p : String)                     -- ParameterLabel
   | brk (e : Expr)
   | pos (e : Expr)
